@@ -7,6 +7,7 @@ CONSTANTS
   StopAfterAnswer = FALSE
   ResumeAllEdges = FALSE
   StepCap = 600
+  CheckLoader = FALSE
 INIT GInit
 NEXT GNext
 CHECK_DEADLOCK FALSE
